@@ -4,9 +4,7 @@ import Hv.Generated.FactsC22
 namespace Hv.C22
 
 /-- The kernel-checked decision for the facts extracted from /repo on this run. -/
-theorem verdict :
-    (classify Generated.factsC22).Sound (Holds (cfgOf Generated.factsC22))
-      (cfgOf Generated.factsC22 = legacy → ∀ t, Plain t → SdkTags.Agree (cfgOf Generated.factsC22) t) :=
+theorem verdict : (classify Generated.factsC22).Sound (Holds Generated.factsC22) (HoldsPartial Generated.factsC22) :=
   classify_sound _
 
 #eval IO.println (verdictLine "C22" (classify Generated.factsC22))
@@ -20,5 +18,22 @@ theorem verdict :
 #print axioms witness_createdAtX
 #print axioms witness_key_with_option
 #print axioms agree_plain_partial
+#print axioms Values.convert_roundtrip
+#print axioms Values.body_roundtrip
+#print axioms Values.holds_of_good
+#print axioms Values.time_value_truncated
+#print axioms Values.struct_value_dropped
+#print axioms Values.nil_body_field_unreadable
+#print axioms Values.omitempty_normalises
+#print axioms Values.gob_nil_empty_witness
+#print axioms Values.refutes_time_seconds
+#print axioms Values.refutes_struct_dropped
+#print axioms Values.refutes_body_nil
+#print axioms Values.refutes_empty_len_zero
+#print axioms Values.refutes_empty_neg_zero
+#print axioms Values.void_overwrite_keeps_old_value
+#print axioms Values.refutes_void_keeps
+#print axioms Hv.SdkValues.intHops_id
+#print axioms Hv.SdkValues.wrap_id
 
 end Hv.C22
